@@ -34,3 +34,49 @@ func (w *Writer) VerifState() (c VerifWriterCounters) {
 	}
 	return c
 }
+
+// VerifEvent is one leaf event of a dynCompressor: a match-finder call ("G") or reset ("R").
+// Recorded only after VerifRecord (verification hook). The harness's own destination adds "D" events.
+type VerifEvent struct {
+	Kind      string // "G" generate, "R" lz77 reset ("D" destination write: added by the harness)
+	Flush     bool
+	End       int // len(input) given to generate
+	Processed int
+	Offset    int
+	TokIn     int
+	NOffset   int
+	TokOut    int
+	Size      int  // D: bytes handed to the destination
+	Tokens    int  // D: len(tokens) at the time of the write (>0 inside encodeBlock)
+	OK        bool // D: the destination accepted the write
+}
+
+type verifRecLZ77 struct {
+	inner lz77compressor
+	log   *[]VerifEvent
+}
+
+func (r *verifRecLZ77) generate(flush bool, input []byte, processed int, offset int, tokens []token, maxToken int) (int, []token) {
+	n, t := r.inner.generate(flush, input, processed, offset, tokens, maxToken)
+	*r.log = append(*r.log, VerifEvent{Kind: "G", Flush: flush, End: len(input), Processed: processed, Offset: offset, TokIn: len(tokens), NOffset: n, TokOut: len(t)})
+	return n, t
+}
+
+func (r *verifRecLZ77) reset() {
+	r.inner.reset()
+	*r.log = append(*r.log, VerifEvent{Kind: "R"})
+}
+
+func (r *verifRecLZ77) histogram() *histogram { return r.inner.histogram() }
+
+// VerifRecord starts recording the leaf events of a dynamic-compressor Writer; it returns nil for
+// other kinds of Writer. The recorder stays installed across Reset.
+func (w *Writer) VerifRecord() *[]VerifEvent {
+	c, ok := w.lc.(*dynCompressor)
+	if !ok {
+		return nil
+	}
+	log := &[]VerifEvent{}
+	c.lz77 = &verifRecLZ77{inner: c.lz77, log: log}
+	return log
+}
